@@ -1,0 +1,11 @@
+//go:build verif
+
+package schema
+
+// VerifSetMaxStaticSetMembers overrides the static-set splitting threshold
+// and returns a function restoring the previous value.
+func VerifSetMaxStaticSetMembers(n int) (restore func()) {
+	old := maxStaticSetMembers
+	maxStaticSetMembers = n
+	return func() { maxStaticSetMembers = old }
+}
